@@ -11,7 +11,13 @@ handshake over an in-memory pipe; `bs`/`ps` of the sender after the handshake ar
 and fed to the model)
   case     : `ph=loop|e2e kind=gcm|cbc dyn=0|1 bs=<n> ps=<n> w=<size>,..|- seed=<n> close=0|1
               seg=<chunk size>,.. bufs=<buffer size>,..`   (seg and bufs are cycled)
-  observed : `[bs0=<n> ps0=<n>] n=<write returns> recs=<header lengths> pl=<plaintext lengths>|?
+             e2e also: `suite=<name> res=0|1` (full handshake / resumed session),
+             `dir=c2s|s2c` (who writes), `gate=0|1` (1: the writer's ChangeCipherSpec + Finished
+             reach the reader's transport together with the application records, as one byte
+             stream cut by `seg`; the reader's handshake ends inside that stream)
+  observed : `[bs0=<n> ps0=<n> pre=<header lengths of the kept-back handshake records>|-
+              hs=<ok|eof|other: the reader's handshake, when gate=1>|-]
+              n=<write returns> recs=<header lengths> pl=<plaintext lengths>|?
               reads=<len>/<ok|eof|other>,.. data=<hex of everything read>`
 -/
 import Gotlcp.Oracle.Common
@@ -22,7 +28,7 @@ import Gotlcp.Spec.StreamSpec
 namespace Gotlcp.Oracle.C06
 open Gotlcp.Model
 open Gotlcp.Model.RecordTx (Kind TxState factsTx)
-open Gotlcp.Model.RecordRx (factsRx Rx RxErr)
+open Gotlcp.Model.RecordRx (factsRx factsHs Rx HsRx RxErr)
 
 def parseKind (s : String) : Option Kind :=
   if s == "none" then some .none else if s == "gcm" then some .aead else if s == "cbc" then some .cbc else none
@@ -61,6 +67,11 @@ def unprotect (k : Kind) : RecordRx.Dec := fun _ _ body =>
     let pad := (body.getLastD 0).toNat + 1
     if body.length < P.blockSize + P.macSize + pad then none
     else some ((body.drop P.blockSize).take (body.length - P.blockSize - P.macSize - pad))
+
+/-- a Finished message as the record layer sees it: header and `finishedVerifyLength` bytes -/
+def finishedPlain : Bytes :=
+  [UInt8.ofNat factsHs.typeFinished, 0, 0, UInt8.ofNat Facts.tlcp.finishedVerifyLength] ++
+    List.replicate Facts.tlcp.finishedVerifyLength 0
 
 def frame (typ : Nat) (body : Bytes) : Bytes :=
   [UInt8.ofNat typ, UInt8.ofNat (factsRx.version / 256), UInt8.ofNat factsRx.version,
@@ -160,6 +171,8 @@ def judgeStream (ct : List String) (o : String) : Option Verdict := do
     | _, _ => ""
   let ws := writesOf seed sizes
   let total := (sizes.foldl (· + ·) 0)
+  let e2e := (kv ct "ph") == some "e2e"
+  let gate := e2e && (kvNat ct "gate") == some 1
   let model : String :=
     match RecordTx.writes factsTx (dyn == 0) k ⟨bs, ps⟩ ws with
     | none => "stuck"
@@ -169,15 +182,27 @@ def judgeStream (ct : List String) (o : String) : Option Verdict := do
       let wire := (bodies.map (frame factsRx.typeAppData)).flatten ++
         (if close == 1 then frame factsRx.typeAlert alertBody else [])
       let bodies := if close == 1 then bodies ++ [alertBody] else bodies
-      let chunks := chunkBy seg wire
-      let outs := (readLoop (unprotect k) bufs (readCap total) { io := ⟨[], chunks⟩ }).toList
+      -- gate=1: the reader is still in its handshake; the peer's ChangeCipherSpec and Finished
+      -- (placeholder verify data, placeholder protection of the right length) come first
+      let finBody := protect k (finishedPlain)
+      let flight := frame factsRx.typeCCS [1] ++ frame factsRx.typeHandshake finBody
+      let chunks := chunkBy seg (if gate then flight ++ wire else wire)
+      let (hs, start) : String × Rx :=
+        if gate then
+          match RecordRx.readLastFlight factsRx factsHs (unprotect k) (fun _ => true) { io := ⟨[], chunks⟩ } with
+          | (e, s1) => (showEnd e, RecordRx.finishHandshake s1)
+        else ("-", { io := ⟨[], chunks⟩ })
+      let outs := (readLoop (unprotect k) bufs (readCap total) start).toList
       let rd := if outs.isEmpty then "-" else ",".intercalate (outs.map fun (x : Bytes × Option RxErr) => s!"{x.1.length}/{showEnd x.2}")
       let pl := if (kv ot "pl") == some "?" then "?" else showNats (recs.map (·.length))
+      let pre := if e2e then s!"{pre}pre={if gate then showNats [1, finBody.length] else "-"} hs={hs} " else pre
       s!"{pre}n={showNats ns} recs={showNats (bodies.map (·.length))} pl={pl} reads={rd} data={Hex.encode (outs.map (·.1)).flatten}"
   -- spec on the observation
   let spec : Option (String × String) :=
     if (kv ot "panic").isSome then some ("panic", "the record layer panicked on an honest stream") else
     if (kv ot "handshake").isSome then some ("handshake", "the honest handshake before the stream failed") else
+    if gate && (kv ot "hs") != some "ok" then
+      some ("handshake", "the reader's handshake failed on an honest last flight that arrived together with application data") else
     match (kv ot "n").bind parseNats, (kv ot "recs").bind parseNats, kv ot "pl", (kv ot "reads").bind parseReads, kvHex ot "data" with
     | some ns, some recs, some pl, some rds, some data =>
       if (rds.map (·.1)).foldl (· + ·) 0 != data.length then some ("shape", "reads and data disagree") else
